@@ -309,3 +309,20 @@ def flatten_spec(s):
     if t == "frac":
         return {"t": "frac", "n": flatten_spec(s["n"]), "d": flatten_spec(s["d"])}
     return s
+
+
+def rename_spec(s, vmap, pmap):
+    """The same spec over other variable / population names."""
+    if isinstance(s, list):
+        return [rename_spec(x, vmap, pmap) for x in s]
+    if not isinstance(s, dict):
+        return vmap.get(s, s) if isinstance(s, str) else s
+    out = {}
+    for k, v in s.items():
+        if k == "t":
+            out[k] = v
+        elif k == "pop":
+            out[k] = pmap.get(v, v) if v is not None else None
+        else:
+            out[k] = rename_spec(v, vmap, pmap)
+    return out
